@@ -563,6 +563,11 @@ class ExprMixin:
             return VBoundStr(base, name)
         if isinstance(base, (VList, VSeq, VHeapList, VDict, VSet)):
             return VBoundColl(base, name, node.value if node is not None else None)
+        if isinstance(base, VFunc) and name == '__doc__':
+            doc = ast.get_docstring(base.fi.node, clean=False)
+            return VStrConst(doc) if doc is not None else VNone()
+        if isinstance(base, VFunc) and name == '__name__':
+            return VStrConst(base.fi.node.name)
         if isinstance(base, VNone):
             self.ctx.oblige(path, 'defined', f'attribute .{name} on None', z3.BoolVal(False), ln)
             raise PathAbort('attribute on None')
